@@ -147,16 +147,21 @@ def check_after_stop(out: Outcome, tr: scenario.Trace, case: dict, stop_t: float
             if kind == "deliver":
                 held = True
                 continue
-            if e.op == "reject":
-                if not held:
-                    continue  # rejecting a message that is no longer held must not change anything
-                new = ("queued", alts[-1][1])
-            elif e.op == "ack":
-                new = ("gone", None)
-            elif e.op == "nack":
-                new = ("dead", alts[-1][1])
-            else:
-                new = ("queued", _params_of(e))
+            if e.op == "reject" and not held:
+                continue  # rejecting a message that is no longer held must not change anything
+
+            def apply(alt, e=e):
+                st_, prm = alt
+                if e.op == "reject":
+                    # (in an alternative where an interrupted ack / nack did take effect there is nothing left to return)
+                    return alt if st_ in ("gone", "dead") else ("queued", prm)
+                if e.op == "ack":
+                    return ("gone", None)
+                if e.op == "nack":
+                    return ("dead", prm)
+                return ("queued", _params_of(e))
+
+            applied = [apply(a) for a in alts]
             if e.op != "reject" and e.done:
                 if chain_i < len(steps) and steps[chain_i].op != e.op:
                     out.v("wrong-disposition", f"{tag}: delivery {chain_i} expected {steps[chain_i].op}, got {e.op}")
@@ -164,10 +169,10 @@ def check_after_stop(out: Outcome, tr: scenario.Trace, case: dict, stop_t: float
             elif e.op == "reject" and e.done and chain_i < len(steps) and steps[chain_i].op == "reject":
                 chain_i += 1  # the actor's own eager reject, not a shutdown hand-back
             if e.done:
-                alts = [new]
+                alts = applied
                 held = False
             else:
-                alts = alts + [new]  # interrupted call: it may or may not have taken effect
+                alts = alts + applied  # interrupted call: it may or may not have taken effect
         if held and not evs:
             pass  # taken but never disposed: must be back in its queue (covered by the 'queued' alternative)
         ok = False
